@@ -254,6 +254,8 @@ func monsOf(kinds ...string) func(s *Scenario, w *worker) []Monitor {
 				ms = append(ms, newCCMon())
 			case "keyemu":
 				ms = append(ms, newKeyEmu())
+			case "xfer":
+				ms = append(ms, newXferMon())
 			}
 		}
 		return ms
@@ -328,6 +330,10 @@ func jobsFor(prop, tier string) []job {
 		}
 		for _, d := range keyEmuScenarios(big, true) {
 			add(d, false, cap)
+		}
+	case "C06":
+		for _, d := range xferScenarios(big) {
+			add(d, false, cap, "xfer")
 		}
 	case "C07":
 		for _, d := range ccScenarios(big) {
